@@ -409,7 +409,13 @@ pub fn run_case(line: &str) -> (String, Vec<String>) {
     // ---- C01: every schedule gives the same observation
     let mut rng = Rng::new(delivered.len() as u64 * 31 + delivered.first().copied().unwrap_or(0) as u64);
     let scheds = schedules(&mut rng, delivered.len());
+    let heap0 = heap_mark();
     let base = run_parser(&c.fmt, &c.ty, c.cfg, mk(scheds[0].1.clone()), scheds[0].2);
+    let (peak, largest) = heap_peak_since(heap0);
+    // C05: memory bounded by a constant multiple of the input (the reader's first chunk included)
+    if peak > 64 * delivered.len() + (1 << 20) {
+        fails.push(format!("C05:parsing {} bytes allocated {} bytes at peak (largest request {})", delivered.len(), peak, largest));
+    }
     let base_text = base.text(false);
     for (name, ev, chunk) in scheds.iter().skip(1) {
         let o = run_parser(&c.fmt, &c.ty, c.cfg, mk(ev.clone()), *chunk).text(false);
